@@ -2,7 +2,10 @@ package main
 
 import (
 	"fmt"
+	"math"
+	"os"
 	"sort"
+	"strconv"
 	"strings"
 	"sync"
 	"time"
@@ -413,15 +416,62 @@ func c20Mode(o *cli.Opts, run *evid.Run, bin, mode, variant string) {
 	}
 	run.Max("max_overlap", overlapMax)
 	// (1) porcupine
-	var history []porcupine.Operation
-	id := 0
-	for _, op := range ops {
-		history = append(history, porcupine.Operation{ClientId: op.client, Input: counterIn{Key: strings.ToLower(op.method) + "/" + fmt.Sprint(op.status)}, Call: op.call, Output: 0, Return: op.ret})
-		id++
+	// The linearizability search keeps a cache whose entries grow with the length of the history, so a history of tens
+	// of thousands of operations (thorough tier) needs tens of GB. Long histories are therefore checked up to a
+	// QUIESCENT cut (a moment when no request and no scrape is in flight) after at most porcupineCap operations: a
+	// prefix that ends at a quiescent point is a complete history of its own (counters start at 0). The rest of the
+	// run is still covered by the conservation, gauge and burst checks above.
+	porcupineCap := 9000
+	if v, err := strconv.Atoi(os.Getenv("VERIF_PORCUPINE_CAP")); err == nil && v > 0 {
+		porcupineCap = v // debug knob: exercise the cut on a short history
 	}
+	cutT := int64(math.MaxInt64)
+	if len(ops) > porcupineCap {
+		type iv struct {
+			t int64
+			d int
+		}
+		var evs2 []iv
+		for _, op := range ops {
+			evs2 = append(evs2, iv{op.call, 1}, iv{op.ret, -1})
+		}
+		for _, sc := range scrapes {
+			evs2 = append(evs2, iv{sc.call, 1}, iv{sc.ret, -1})
+		}
+		sort.Slice(evs2, func(i, j int) bool { return evs2[i].t < evs2[j].t || (evs2[i].t == evs2[j].t && evs2[i].d > evs2[j].d) })
+		inflight, doneOps, best := 0, 0, int64(0)
+		isOpRet := map[int64]int{}
+		for _, op := range ops {
+			isOpRet[op.ret]++
+		}
+		for _, e := range evs2 {
+			inflight += e.d
+			if e.d < 0 && isOpRet[e.t] > 0 {
+				isOpRet[e.t]--
+				doneOps++
+			}
+			if inflight == 0 && doneOps <= porcupineCap {
+				best = e.t
+			}
+		}
+		if best == 0 {
+			run.Inconclusive(key + ": no quiescent point within the first operations of the history; porcupine not run")
+			return
+		}
+		cutT = best
+		run.Add("porcupine_histories_cut_at_quiescent_point", 1)
+	}
+	var history []porcupine.Operation
+	for _, op := range ops {
+		if op.ret > cutT {
+			continue
+		}
+		history = append(history, porcupine.Operation{ClientId: op.client, Input: counterIn{Key: strings.ToLower(op.method) + "/" + fmt.Sprint(op.status)}, Call: op.call, Output: 0, Return: op.ret})
+	}
+	run.Add("porcupine_operations_checked", len(history))
 	all := append(append([]scrape{}, scrapes...), final)
 	for si, s := range all {
-		if s.err != nil {
+		if s.err != nil || s.ret > cutT {
 			continue
 		}
 		for k := range keys {
